@@ -278,6 +278,9 @@ Definition tcp_maybe_wakeup_writer (cx : ctx) (s : Z) (w : net) : net * list kc 
   | Some h => tcp_async_write_impl cx s (t_send_buf t) h (set_tcp w s (t <| t_send_h := None |>))
   end.
 
+Fixpoint outst_find (l : list (Z * Z)) (q : Z) : option Z :=
+  match l with [] => None | (k, n) :: r => if k =? q then Some n else outst_find r q end.
+
 (* tcp::socket::packet_dropped *)
 Definition tcp_packet_dropped (v : variant) (s : Z) (p : packet) (w : net) : net * list kc :=
   let t := get_tcp w s in
@@ -286,7 +289,15 @@ Definition tcp_packet_dropped (v : variant) (s : Z) (p : packet) (w : net) : net
             else (w, [KLog (TAG_FUEL, [5])])      (* null channel dereferenced *)
   | Some ci =>
       let c := get_chan w ci in
-      let p' := set_hops (set_drop p None) (chan_hops c (remote_idx c (t_bound t))) in
+      let p' := set_hops (set_drop p (if d9_drop_cb_kept v then Some (DTcp s) else None))
+                         (chan_hops c (remote_idx c (t_bound t))) in
+      let t := if d8_drop_unaccounts v then
+                 match outst_find (t_outst t) (p_seq p) with
+                 | Some n => t <| t_inflight := t_inflight t - n |>
+                               <| t_outst := filter (fun x => negb (fst x =? p_seq p)) (t_outst t) |>
+                 | None => t
+                 end
+               else t in
       let t := t <| t_outgoing := t_outgoing t ++ [p'] |> in
       let in_cwnd := t_cwnd t / t_mss t in
       if (0 <? t_last_drop t) && (p_seq p <? t_last_drop t + in_cwnd) then (set_tcp w s t, [])
@@ -295,9 +306,6 @@ Definition tcp_packet_dropped (v : variant) (s : Z) (p : packet) (w : net) : net
         let cw := if cw <? t_mss t then t_mss t else cw in
         (set_tcp w s (t <| t_cwnd := cw |> <| t_last_drop := p_seq p |>), [])
   end.
-
-Fixpoint outst_find (l : list (Z * Z)) (q : Z) : option Z :=
-  match l with [] => None | (k, n) :: r => if k =? q then Some n else outst_find r q end.
 
 (* the resend loop of the ACK branch *)
 Fixpoint resend_loop (cx : ctx) (fuel : nat) (s : Z) (w : net) : net * list kc :=
@@ -339,7 +347,7 @@ Definition tcp_incoming (cx : ctx) (s : Z) (p : packet) (w : net) : net * list k
       | Some acked =>
           let t := t <| t_outst := filter (fun x => negb (fst x =? p_seq p)) (t_outst t) |>
                      <| t_inflight := t_inflight t - acked |> in
-          let (w, c1) := resend_loop cx (S (length (t_outgoing t))) s (set_tcp w s t) in
+          let (w, c1) := resend_loop cx (length (t_outgoing t)) s (set_tcp w s t) in
           let t := get_tcp w s in
           let t := t <| t_cwnd := t_cwnd t + t_mss t * acked / t_cwnd t |> in
           let w := set_tcp w s t in
@@ -349,7 +357,11 @@ Definition tcp_incoming (cx : ctx) (s : Z) (p : packet) (w : net) : net * list k
           if wake then let (w, c2) := tcp_maybe_wakeup_writer cx s w in (w, c1 ++ c2) else (w, c1)
       end
   | PSynAck =>
-      let c := post_h (t_connect_h t) [EC_OK] in
+      let c := match t_connect_h t with
+               | Some h => [KPost (TUser h [EC_OK])]
+               | None => if d27_synack_guard (cv cx) then []
+                         else [KLog (TAG_FUEL, [13])]     (* an empty handler is posted and later invoked *)
+               end in
       let (w, c2) := tcp_maybe_wakeup_writer cx s (set_tcp w s (t <| t_connect_h := None |>)) in
       (w, c ++ c2)
   | PError | PPayload =>
@@ -739,6 +751,13 @@ Definition rslv_arm (r : Z) (q : list lookup) : list kc :=
   | l :: _ => [KExpiresAt (tid_rslv r) (l_time l); KAsyncWait (tid_rslv r) (fun e => TResolve r e)]
   end.
 
+(* insertion before the first entry that completes strictly later *)
+Fixpoint ins_lookup (l : lookup) (q : list lookup) : list lookup :=
+  match q with
+  | [] => [l]
+  | x :: r => if l_time l <? l_time x then l :: q else x :: ins_lookup l r
+  end.
+
 (* basic_resolver::async_resolve *)
 Definition rslv_resolve (cx : ctx) (r : Z) (n : rname) (port : Z) (h : Z) (w : net) : net * list kc :=
   let x := get_rslv w r in
@@ -746,12 +765,14 @@ Definition rslv_resolve (cx : ctx) (r : Z) (n : rname) (port : Z) (h : Z) (w : n
   match n with
   | RLit a =>
       let l := {| l_time := cnow cx + 1000; l_ec := EC_OK; l_eps := [{| e_addr := a; e_port := port |}]; l_h := h |} in
-      let q' := l :: q in
+      let q' := if d25_resolver_order (cv cx) then ins_lookup l q else l :: q in
       (set_rslv w r {| r_node := r_node x; r_queue := q' |}, rslv_arm r q')
   | RHost id =>
       let start := match q with
                    | [] => cnow cx
-                   | f :: _ => if d17_resolver_back (cv cx) then l_time (last q f) else l_time f
+                   | f :: _ =>
+                       let t0 := if d17_resolver_back (cv cx) then l_time (last q f) else l_time f in
+                       if d25_resolver_order (cv cx) then Z.max (cnow cx) t0 else t0
                    end in
       let he := mget (mkHost 100000000 EC_HOST_NOT_FOUND []) (w_hosts w) id in
       let l := {| l_time := start + h_lat he; l_ec := h_ec he;
@@ -766,7 +787,7 @@ Definition lookup_args (l : lookup) (e : Z) : list Z :=
 (* basic_resolver::on_lookup, first half: pop the head; the completion handler is
    then invoked INLINE, and afterwards the timer is re-armed for the (then)
    front of the queue iff the queue was non-empty before the handler ran *)
-Definition rslv_on_lookup (r : Z) (e : ec) (w : net) : net * option (Z * list Z * bool) :=
+Definition rslv_on_lookup (now : Z) (r : Z) (e : ec) (w : net) : net * option (Z * list Z * bool) :=
   match e with
   | Aborted => (w, None)
   | Success =>
@@ -774,6 +795,7 @@ Definition rslv_on_lookup (r : Z) (e : ec) (w : net) : net * option (Z * list Z 
       match r_queue x with
       | [] => (w, None)
       | l :: rest =>
+          if now <? l_time l then (w, Some (-1, [], true)) else
           (set_rslv w r {| r_node := r_node x; r_queue := rest |},
            Some (l_h l, lookup_args l (l_ec l), match rest with [] => false | _ => true end))
       end
@@ -975,9 +997,11 @@ Definition sim_exec (v : variant) (t : task) (now : Z) (w : net) : net * list kc
   | TUser h args => run_user v now h args w
   | TQueue s k => queue_task v now s k w
   | TResolve r e =>
-      let (w, call) := rslv_on_lookup r e w in
+      let (w, call) := rslv_on_lookup now r e w in
       match call with
       | Some (h, args, more) =>
+          if h =? -1 then (w, rslv_rearm r w)      (* the front entry is not due yet: wait for it *)
+          else
           let (w, c) := run_user v now h args w in
           (w, c ++ (if more then rslv_rearm r w else []))
       | None => (w, [])
